@@ -128,7 +128,7 @@ class C06(Prop):
     pid = "C06"
     prop_file = "Props/C06.v"
     module = "Props.C06"
-    gen_deps = ["Table", "StreamFn"]
+    gen_deps = ["Table", "StreamFn", "FmtFn"]
     harness = ("h-core", "hcore")
     nontrivial_rule = ("cases: the standard caller protocol over StripStream::write for EVERY script over {accept 0,1,2,3,all} u {Interrupted, WouldBlock, Other} up to depth 4 "
                        "(quick) / 5 (thorough) against six short escape-rich inputs, and seeded random scripts against long grammar inputs; sequences of write / write_all / "
